@@ -170,6 +170,40 @@ def fam_hae_all(seed, tier):
                                                                   "handler_cases_run": len(take), "handler_domain_exhaustive": len(take) == len(cases)}
 
 
+def snaprace_scenarios():
+    """C10's interleavings made explicit: a follower with committed-but-unapplied entries (gated Apply)
+    receives a snapshot in the code's request sequence while it applies those entries and takes a
+    local snapshot at every possible position in between; single- and multi-chunk payloads;
+    optionally a crash + restart of the follower right after."""
+    X = [{"op": "hb", "n": "a"}, {"op": "xchg", "kind": "is", "from": "a", "to": "c"}]
+    Y = [{"op": "snapnow", "n": "c"}, {"op": "release", "n": "c", "w": "apply"}]
+    pre = [{"op": "fire", "n": "a"}, {"op": "xchg", "kind": "rv", "from": "a", "to": "b"}, {"op": "xchg", "kind": "rv", "from": "a", "to": "b"},
+           {"op": "xchg", "kind": "ae", "from": "a", "to": "b"}, {"op": "hb", "n": "a"}, {"op": "xchg", "kind": "ae", "from": "a", "to": "c"},
+           {"op": "gate", "n": "c", "w": "apply"},
+           {"op": "submit", "n": "a", "val": "w1", "to_ms": 60000}, {"op": "submit", "n": "a", "val": "w2", "to_ms": 60000},
+           {"op": "xchg", "kind": "ae", "from": "a", "to": "b"}, {"op": "hb", "n": "a"}, {"op": "xchg", "kind": "ae", "from": "a", "to": "c"},
+           {"op": "submit", "n": "a", "val": "w3", "to_ms": 60000}, {"op": "submit", "n": "a", "val": "w4", "to_ms": 60000},
+           {"op": "snapnow", "n": "a"}, {"op": "xchg", "kind": "ae", "from": "a", "to": "b"}]
+    post = [{"op": "hb", "n": "a"}, {"op": "xchg", "kind": "ae", "from": "a", "to": "c"}, {"op": "hb", "n": "a"}, {"op": "xchg", "kind": "ae", "from": "a", "to": "c"},
+            {"op": "submit", "n": "a", "val": "w5", "to_ms": 60000}, {"op": "xchg", "kind": "ae", "from": "a", "to": "b"},
+            {"op": "hb", "n": "a"}, {"op": "xchg", "kind": "ae", "from": "a", "to": "c"}, {"op": "hb", "n": "a"}, {"op": "xchg", "kind": "ae", "from": "a", "to": "c"}]
+    out = []
+    for pad in (100, 40000):
+        for ypos in range(5):
+            for crash in (False, True):
+                mid = []
+                for k in range(4):
+                    if k == ypos:
+                        mid += Y
+                    mid += X
+                if ypos == 4:
+                    mid += Y
+                tail = ([{"op": "crash", "n": "c"}, {"op": "restart", "n": "c"}] if crash else []) + post
+                out.append({"name": "snaprace-p%d-y%d%s" % (pad, ypos, "-crash" if crash else ""), "family": "snap", "voters": ["a", "b", "c"],
+                            "controlled": True, "auto": False, "heal": True, "heal_et": 60, "snap_pad": pad, "stimuli": pre + mid + tail})
+    return out
+
+
 def fam_lease(seed, i, tier):
     """lease reads under the timing assumption: every message is delivered within a bound below
     election timeout - lease duration (300 - 100 ms) or dropped by a partition; one virtual clock"""
@@ -402,8 +436,8 @@ PROPS = {
     "C14": dict(fams=[("crash", 3), ("snap", 2)], corpus=["crash", "snap"], mc="MC_crash3", mc_deep="MC_crash3_deep", crashpoints=True),
     "C09": dict(fams=[("member", 3), ("member5", 3)], corpus=["member"], mc="MC_member4", mc_module="MC_core3", monitor_props=["C01", "C02", "C07", "C09", "C05"],
                 gen=[("Gen_member4", ["a", "b"], 45, ["c", "d"])]),
-    "C10": dict(fams=[("snap", 6)], corpus=["snap"], mc="MC_snap3", gen=[("Gen_snap3", ["a", "b", "c"], 45)]),
-    "C11": dict(fams=[("snap", 6)], corpus=["snap"], mc="MC_snap3", gen=[("Gen_snap3", ["a", "b", "c"], 45)]),
+    "C10": dict(fams=[("snap", 6)], corpus=["snap"], mc="MC_snap3", gen=[("Gen_snap3", ["a", "b", "c"], 45)], snaprace=True),
+    "C11": dict(fams=[("snap", 6)], corpus=["snap"], mc="MC_snap3", gen=[("Gen_snap3", ["a", "b", "c"], 45)], snaprace=True),
     "C12": dict(storage=True),
     "C13": dict(storage=True),
     "C15": dict(fams=[("core", 2), ("crash", 2), ("snap", 2), ("member5", 2)], corpus=["core", "crash", "snap", "member"], mc="MC_core3"),
@@ -435,6 +469,10 @@ def gen_scenarios(prop, tier, seed, workdir):
         a, extra = fam_hae_all(seed, tier)
         scs += a
         EXTRA_COV.update(extra)
+    if spec.get("snaprace"):
+        a = snaprace_scenarios()
+        scs += a
+        EXTRA_COV.update({"snapshot_race_interleavings": len(a)})
     if spec.get("crashpoints"):
         a, extra = crashpoint_scenarios(workdir, seed, tier)
         scs += a
